@@ -665,10 +665,13 @@ class NotationData(Signature):
     def __bytearray__(self):
         _bytes = super(NotationData, self).__bytearray__()
         _bytes += self.int_to_bytes(sum(self.flags)) + b'\x00\x00\x00'
-        _bytes += self.int_to_bytes(len(self.name), 2)
-        _bytes += self.int_to_bytes(len(self.value), 2)
-        _bytes += self.name.encode()
-        _bytes += self.value if isinstance(self.value, bytearray) else self.value.encode()
+        # the two length fields count octets of the encoded name and value, not characters
+        name = self.name.encode()
+        value = self.value if isinstance(self.value, bytearray) else self.value.encode()
+        _bytes += self.int_to_bytes(len(name), 2)
+        _bytes += self.int_to_bytes(len(value), 2)
+        _bytes += name
+        _bytes += value
         return bytes(_bytes)
 
     def parse(self, packet):
